@@ -13,6 +13,9 @@ What is extracted (fail closed: any statement that is not recognised makes the d
  * gen_main_prog : http_queue_strategy as a list of MPutAll / MStart use_min / MJoin / MDrain / MSort / MAssemble
  * gen_exec_* : http_thread_executor_strategy: own stream per job?, results taken in submission order?, pool joined
    (with-statement)?, the job = seek then read.
+ * gen_stream_read : HttpRangeStream.read as a list of SZeroEmpty (`if n == 0: return b""`) / SRequest (range_end, headers,
+   session.get) / SRaiseForStatus / SAdvance (`self.range_start += n`) / SReturnContent, in statement order
+ * gen_fetch_workers : the worker count CopcReader._fetch_all_chunks hands to both strategies, as a function of http_num_threads
 """
 import ast
 
@@ -23,6 +26,7 @@ TYPES = """Inductive winstr := ITestEmpty | ITake (blocking : bool) | IFetch | I
 Inductive minstr := MPutAll | MStart (use_min : bool) | MJoin | MDrain | MSort | MAssemble.
 Inductive collect_order := BySubmission | ByCompletion.
 Inductive jinstr := JSeek | JRead.
+Inductive sinstr := SZeroEmpty | SRequest | SRaiseForStatus | SAdvance | SReturnContent.
 """
 
 
@@ -243,19 +247,74 @@ def exec_summary(repo):
     return own, order
 
 
-def stream_ok(repo):
-    """HttpRangeStream: seek sets range_start; read(n) requests bytes=start..start+n-1, raises on failure BEFORE moving, then advances"""
+def stream_prog(repo):
+    """HttpRangeStream.read statement by statement -> list of sinstr; seek must set range_start"""
     mod = py2v.parse(repo, "laspy/copc.py")
     cls = py2v.find_class(mod, "HttpRangeStream")
     seek = [norm(u(s)) for s in py2v.find_func(cls, "seek").body]
-    read = [norm(u(s)) for s in py2v.find_func(cls, "read").body]
     if seek[-1] != "self.range_start=pos":
         raise Untranslatable("HttpRangeStream.seek")
-    want = ["ifn==0:return" + norm("b''"), "range_end=self.range_start+n-1",
-            norm("headers = {'Range': f'bytes={self.range_start}-{range_end}'}"),
-            "r=self.session.get(self.url,headers=headers)", "r.raise_for_status()", "self.range_start+=n", "returnr.content"]
-    if read != want:
-        raise Untranslatable("HttpRangeStream.read shape")
+    rd = py2v.find_func(cls, "read")
+    if [a.arg for a in rd.args.args] != ["self", "n"]:
+        raise Untranslatable("HttpRangeStream.read signature")
+    body = [s for s in rd.body if not (isinstance(s, ast.Expr) and isinstance(s.value, ast.Constant))]
+    text = [norm(u(s)) for s in body]
+    request = ["range_end=self.range_start+n-1", norm("headers = {'Range': f'bytes={self.range_start}-{range_end}'}"),
+               "r=self.session.get(self.url,headers=headers)"]
+    out = []
+    i = 0
+    while i < len(text):
+        t = text[i]
+        if t == "ifn==0:return" + norm("b''"):
+            out.append("SZeroEmpty")
+        elif text[i:i + 3] == request:
+            out.append("SRequest")
+            i += 2
+        elif t == "r.raise_for_status()":
+            out.append("SRaiseForStatus")
+        elif t == "self.range_start+=n":
+            out.append("SAdvance")
+        elif t == "returnr.content":
+            out.append("SReturnContent")
+        else:
+            raise Untranslatable("HttpRangeStream.read: unexpected statement " + u(body[i])[:70])
+        i += 1
+    return out
+
+
+def fetch_workers(repo):
+    """CopcReader._fetch_all_chunks: the http branch hands byte_queries and the reader's http_num_threads to the strategies"""
+    mod = py2v.parse(repo, "laspy/copc.py")
+    cls = py2v.find_class(mod, "CopcReader")
+    f = py2v.find_func(cls, "_fetch_all_chunks")
+    branch = None
+    for st in f.body:
+        if isinstance(st, ast.If) and norm(u(st.test)) == "isinstance(self.source,HttpRangeStream)":
+            branch = st
+    if branch is None:
+        raise Untranslatable("_fetch_all_chunks: no `if isinstance(self.source, HttpRangeStream)` branch")
+    if len(branch.body) != 1 or not isinstance(branch.body[0], ast.If):
+        raise Untranslatable("_fetch_all_chunks: the http branch does more than choosing a strategy: " + u(branch.body[0])[:70])
+    sel = branch.body[0]
+    if norm(u(sel.test)) != norm("self.http_strategy == 'queue'") or len(sel.body) != 1 or len(sel.orelse) != 1:
+        raise Untranslatable("_fetch_all_chunks: strategy selection")
+    exprs = []
+    for st, fn in ((sel.body[0], "http_queue_strategy"), (sel.orelse[0], "http_thread_executor_strategy")):
+        if not (isinstance(st, ast.Expr) and isinstance(st.value, ast.Call) and u(st.value.func) == fn
+                and len(st.value.args) == 4 and not st.value.keywords):
+            raise Untranslatable("_fetch_all_chunks: call of " + fn)
+        a = [norm(u(x)) for x in st.value.args]
+        if a[:3] != ["self.source", "byte_queries", "compressed_bytes"]:
+            raise Untranslatable("_fetch_all_chunks: arguments of " + fn)
+        exprs.append(a[3])
+    if exprs[0] != exprs[1]:
+        raise Untranslatable("_fetch_all_chunks: the strategies get different worker counts")
+    if exprs[0] != "self.http_num_threads":
+        raise Untranslatable("_fetch_all_chunks: worker count is " + exprs[0])
+    init = py2v.find_func(cls, "__init__")
+    if "self.http_num_threads=http_num_threads" not in [norm(u(s)) for s in init.body]:
+        raise Untranslatable("CopcReader.__init__: http_num_threads")
+    return "http_num_threads"
 
 
 def gen(repo):
@@ -278,9 +337,12 @@ def gen(repo):
     o.add("gen_exec", ex)
 
     def st():
-        stream_ok(repo)
-        return "Definition gen_stream_read_advances_after_success : bool := true.\n"
-    o.add("gen_stream", st)
+        return "Definition gen_stream_read : list sinstr := [" + "; ".join(stream_prog(repo)) + "].\n"
+    o.add("gen_stream_read", st)
+
+    def fw():
+        return f"Definition gen_fetch_workers (http_num_threads : nat) : nat := {fetch_workers(repo)}.\n"
+    o.add("gen_fetch_workers", fw)
     return o
 
 
